@@ -45,6 +45,7 @@ type Result struct {
 	Steps       int64            `json:"steps"`
 	Sample      interface{}      `json:"sample,omitempty"`
 	Log         []string         `json:"log,omitempty"` // event log (determinism self-test)
+	Executed    *Case            `json:"executed,omitempty"` // as-executed case (realised schedule) for violations
 }
 
 func (r *Result) Count(name string, n int64) {
